@@ -216,6 +216,8 @@ func (h *HTTP) Start() {
 
 	h.GinEngine.POST("/*endpoint", h.request)
 	h.GinEngine.GET("/*endpoint", h.fake404)
+	// every other method gets the same decoy page instead of the engine's own 404
+	h.GinEngine.NoRoute(h.fake404)
 	h.Active = true
 
 	if h.Config.Secure {
